@@ -97,8 +97,46 @@ def close(a, b, tol=1e-9):
     return (math.isnan(a) and math.isnan(b)) or abs(a - b) <= tol * (1 + abs(a))
 
 
+def plain_ranges(ctx, rep):
+    """compiled runs without the mirror (so that this family still runs when the samplers were restructured beyond what the mirror knows):
+    every F / CR / MR in force and every memory cell, read at each generation boundary, is in its documented range"""
+    import thefittest.optimizers as O
+    plans = [("SHADE", dict(left_border=-2.0, right_border=2.0, num_variables=3)), ("SHAGA", dict(str_len=10)),
+             ("jDE", dict(left_border=-2.0, right_border=2.0, num_variables=3))]
+    for kind, kw in plans:
+        for _ in range(ctx.pick(4, 12)):
+            seed, pop = ctx.rng.randrange(1 << 30), ctx.rng.choice([6, 9, 12])
+            seen = []
+
+            def cb(o, seen=seen):
+                seen.append({a: np.array(getattr(o, a), dtype=np.float64).copy() for a in ("_F", "_CR", "_MR", "_H_F", "_H_CR", "_H_MR") if hasattr(o, a)})
+            opt = getattr(O, kind)(lambda X: -np.asarray(X, dtype=np.float64).sum(axis=1) ** 2, iters=14, pop_size=pop, random_state=seed, on_generation=cb, **kw)
+            opt.fit()
+            rep.traces += 1
+            rep.count("plain-ranges", (kind, seed))
+            hi_mr = 5.0 / kw["str_len"] if kind == "SHAGA" else None
+            for g, snap_ in enumerate(seen):
+                for a, v in snap_.items():
+                    if a in ("_F", "_H_F"):
+                        lo_ok, hi = v > 0, 1.0 if kind != "jDE" else 1.0 + 1e-12
+                        if kind == "jDE":
+                            lo_ok, hi = v >= opt._F_min - 1e-12, opt._F_min + opt._F_max + 1e-12
+                    elif a in ("_MR", "_H_MR"):
+                        lo_ok, hi = v > 0, hi_mr
+                    else:
+                        lo_ok, hi = v >= 0, 1.0
+                    if not (np.all(np.isfinite(v)) and np.all(lo_ok) and np.all(v <= hi)):
+                        rep.problem("range", f"{kind}: {a} holds a value outside its documented range at generation {g + 1}: {v.tolist()}",
+                                    dict(kind=kind, random_state=seed, pop_size=pop, generation=g + 1, series=a), "plain-range", True, v.tolist(), None, "C15_shade_ranges")
+                        break
+                else:
+                    continue
+                break
+
+
 def run(ctx, rep):
     import thefittest.optimizers as O
+    plain_ranges(ctx, rep)
     MR.build()
     fg_sh = C.CoqCases(ctx.scratch, "gen_shade", IMPORTS, "chk_gen_shade", "nat * Z * list draw * list (Z * Q * Q)", shard=80)
     fg_sg = C.CoqCases(ctx.scratch, "gen_shaga", IMPORTS, "chk_gen_shaga", "Q * nat * Z * list draw * list (Z * Q * Q)", shard=80)
